@@ -3,5 +3,5 @@ CONSTANTS
   EPs = {"execservice", "builderbid", "proposer", "mergeduties", "proposalbest", "cacheevents"}
   MaxCalls = 3
   MaxInFlight = 2
-INVARIANTS TypeOK KeepsRunning EndsProperly HistoryIndependent BoundedOverlap Total
+INVARIANTS TypeOK KeepsRunning EndsProperly HistoryIndependent AuxFaultsSurvived BoundedOverlap Total
 CHECK_DEADLOCK FALSE
